@@ -42,7 +42,7 @@ func stringProducers(s string) []producer {
 	return ps
 }
 
-func numberProducers(n float64) []producer {
+func numberProducers(n float64, keepAll bool) []producer {
 	num := model.Num
 	ps := []producer{
 		{"literal", func() *model.N { return num(n) }, ""},
@@ -68,7 +68,7 @@ func numberProducers(n float64) []producer {
 		{"modulo", func() *model.N { return model.Grp(model.Bin("%", num(n), num(n+7))) }, ""},
 	}
 	// every operator application over the boundary alphabet whose (model) value is n
-	ps = append(ps, operatorProducers(n)...)
+	ps = append(ps, operatorProducers(n, keepAll)...)
 	if n <= 5 && n >= 0 {
 		var items []*model.N
 		for i := 0; i < int(n); i++ {
@@ -174,10 +174,54 @@ func C16(c *fw.Ctx) {
 		pre   func() []*model.N
 	}
 	var sets []valueSet
-	for _, s := range []string{"abc", "", "12", " ", "\u0995\u09DF", "e\u0301x"} {
+	// pass-through wrappers: the value is carried through one more construct that must not change it
+	wrappers := []struct {
+		name string
+		mk   func(e *model.N) *model.N
+	}{
+		{"group", func(e *model.N) *model.N { return model.Grp(e) }},
+		{"literal-property", func(e *model.N) *model.N { return model.Prop(model.Grp(model.Obj([]string{"k"}, []*model.N{e})), "k") }},
+		{"literal-element", func(e *model.N) *model.N { return model.Idx(model.Arr(model.Num(9), e), model.Num(1)) }},
+		{"argument", func(e *model.N) *model.N { return model.CallN("idf", e) }},
+		{"or-result", func(e *model.N) *model.N { return model.Grp(model.Log(model.KwOr, model.Bool(false), e)) }},
+		{"and-result", func(e *model.N) *model.N { return model.Grp(model.Log("&&", model.Bool(true), e)) }},
+		{"assignment-value", func(e *model.N) *model.N { return model.Grp(model.Asg("tmpw", e)) }},
+		{"appended-element", func(e *model.N) *model.N { return model.Idx(model.CallN(model.BiAppend, model.Arr(), e), model.Num(0)) }},
+		{"listed-value", func(e *model.N) *model.N { return model.Idx(model.CallN(model.BiValues, model.Obj([]string{"k"}, []*model.N{e})), model.Num(0)) }},
+		{"closure-result", func(e *model.N) *model.N { return model.Call(model.CallN("mkc", e)) }},
+	}
+	wrap := func(base []producer, n int) []producer {
+		out := append([]producer{}, base...)
+		if n > len(base) {
+			n = len(base)
+		}
+		for _, w := range wrappers {
+			for _, p := range base[:n] {
+				w, p := w, p
+				out = append(out, producer{w.name + "(" + p.Name + ")", func() *model.N { return w.mk(p.Mk()) }, p.Stdin})
+			}
+		}
+		return out
+	}
+	wrapPre := func() []*model.N {
+		return []*model.N{model.Var("tmpw", nil), model.Fun("mkc", []string{"v"}, model.Fun("inner", nil, model.Return(model.Id("v"))), model.Return(model.Id("inner")))}
+	}
+	strVals := []string{"abc", "", "12", " ", "\u0995\u09DF", "e\u0301x"}
+	numVals := []float64{0, 3, 1000000, -1}
+	wrapBase := 3
+	if !c.Quick() {
+		strVals = append(strVals, "0", "true", "nil", "1e3", "a b", "-", "\u09e7\u09e8", strings.Repeat("xy", 60), "k", "abc ")
+		numVals = append(numVals, 0.5, -0.5, 1, 64, 2147483648, 9007199254740992, 1e21, 1e-7, 255)
+		wrapBase = 1000
+	}
+	c.Bound("string_values", len(strVals))
+	c.Bound("number_values", len(numVals))
+	c.Bound("pass_through_wrappers", len(wrappers))
+	for _, s := range strVals {
 		s := s
-		sets = append(sets, valueSet{fmt.Sprintf("string %q", s), stringProducers(s), func() *model.N { return model.Str(s) }, func() []*model.N {
+		sets = append(sets, valueSet{fmt.Sprintf("string %q", s), wrap(stringProducers(s), wrapBase), func() *model.N { return model.Str(s) }, func() []*model.N {
 			return []*model.N{
+				wrapPre()[0], wrapPre()[1],
 				model.Fun("rs", nil, model.Return(model.Str(s))),
 				model.Fun("idf", []string{"x"}, model.Return(model.Id("x"))),
 				model.Var("sv", model.Str(s)),
@@ -185,10 +229,15 @@ func C16(c *fw.Ctx) {
 			}
 		}})
 	}
-	for _, n := range []float64{0, 3, 1000000, -1} {
+	for _, n := range numVals {
 		n := n
-		sets = append(sets, valueSet{fmt.Sprintf("number %v", n), numberProducers(n), func() *model.N { return model.Num(n) }, func() []*model.N {
+		nb := wrapBase
+		if nb > 24 {
+			nb = 24
+		}
+		sets = append(sets, valueSet{fmt.Sprintf("number %v", n), wrap(numberProducers(n, !c.Quick()), nb), func() *model.N { return model.Num(n) }, func() []*model.N {
 			return []*model.N{
+				wrapPre()[0], wrapPre()[1],
 				model.Fun("rn", nil, model.Return(model.Num(n))),
 				model.Fun("idf", []string{"x"}, model.Return(model.Id("x"))),
 				model.Var("nv", model.Num(n)),
@@ -215,6 +264,27 @@ func C16(c *fw.Ctx) {
 			return outc{}, o, src, false
 		}
 		return outc{o.Stdout, o.FirstDiag(), o.Status}, o, src, true
+	}
+	// a producer counts only if the reference model says it yields exactly the value of its set
+	for si := range sets {
+		vs := &sets[si]
+		want := (&model.Machine{}).Run(parenAll([]*model.N{model.ExprS(vs.same())}))
+		var kept []producer
+		for _, p := range vs.prods {
+			var lines []string
+			if p.Stdin != "" {
+				lines = strings.Split(strings.TrimSuffix(p.Stdin, "\n"), "\n")
+			}
+			prog := append(vs.pre(), common()...)
+			prog = append(prog, model.ExprS(p.Mk()))
+			res := (&model.Machine{Stdin: lines}).Run(parenAll(prog))
+			if res.Err != nil || res.Unspec != "" || res.Diverged || len(res.Values) == 0 || len(want.Values) != 1 || !sameScalar(res.Values[len(res.Values)-1], want.Values[0]) {
+				c.Count("producers_dropped_model_value_differs")
+				continue
+			}
+			kept = append(kept, p)
+		}
+		vs.prods = kept
 	}
 	for _, vs := range sets {
 		ctxs := c16Contexts(strings.HasPrefix(vs.label, "string"), vs.same)
@@ -294,7 +364,7 @@ func ctxClass(n string) string {
 // operatorProducers enumerates x op y and op x over a numeric alphabet and
 // keeps the applications whose model value is exactly n: the same number
 // coming out of every operator that can produce it.
-func operatorProducers(n float64) []producer {
+func operatorProducers(n float64, keepAll bool) []producer {
 	alpha := []float64{0, 1, -1, 2, 3, 4, 5, 7, 0.5, 8, 63, 64, 65, 100, 1000, 1000000, 999999, 1000001, 2147483648, 4294967296, 9007199254740992, 1e21}
 	lit := func(f float64) *model.N {
 		if f < 0 {
@@ -324,7 +394,7 @@ func operatorProducers(n float64) []producer {
 	finish := func() []producer {
 		for _, op := range opOrder {
 			l := perOp[op]
-			if len(l) > 6 {
+			if len(l) > 6 && !keepAll {
 				l = append(append([]producer{}, l[:3]...), l[len(l)-3:]...)
 			}
 			out = append(out, l...)
@@ -368,4 +438,17 @@ func operatorProducers(n float64) []producer {
 		}
 	}
 	return finish()
+}
+
+// sameScalar: identical strings, or identical numbers (the sign of zero included).
+func sameScalar(a, b model.Value) bool {
+	switch x := a.(type) {
+	case string:
+		y, ok := b.(string)
+		return ok && x == y
+	case float64:
+		y, ok := b.(float64)
+		return ok && x == y && math.Signbit(x) == math.Signbit(y)
+	}
+	return false
 }
